@@ -367,7 +367,8 @@ PLANS = {
     ),
     'C14': dict(
         module='RucteProps.C14',
-        theorems=['Ructe.C14.exec_prefix', 'Ructe.C14.exec_ok_complete', 'Ructe.C14.exec_schedule_irrelevant', 'Ructe.C14.exec_err_stops', 'Ructe.C14.iter_err_stops'],
+        extra_modules=['RucteProps.C14Source'],
+        theorems=['Ructe.C14.err_only_from_sink', 'Ructe.C14.exec_prefix', 'Ructe.C14.exec_ok_complete', 'Ructe.C14.exec_schedule_irrelevant', 'Ructe.C14.exec_err_stops', 'Ructe.C14.iter_err_stops'],
         runs=[dict(suite='e2e', n=dict(quick=800, thorough=12000), projection='identity', tags=['C14']),
               dict(suite='html', n=dict(quick=5000, thorough=200000), projection='identity', tags=['C14'])],
         correspondence='compiled behaviour under fault-injecting sinks (inside the generated main.rs) and the escaping writer under scheduled sinks vs Esc.toHtmlDisplay / Ructe.execL',
